@@ -120,12 +120,20 @@ def storedOffset (custom : Option Nat) (cur : Nat) : Except String Nat :=
   | some o => if o < cur then Except.error (layoutMsg "custom offset" o cur) else .ok o
   | none => .ok cur
 
+/-- `std::numeric_limits<offset_t>::max()` (`offset_t` = `std::uint64_t`; the width is the one
+    `extract/validator_layout.py` reads from sbepp.hpp, see `Lemmas/ValidatorLayoutTie.lean`) -/
+def offsetMax : Nat := 18446744073709551615
+
+/-- message of the overflow diagnostic (sbeppc since fix 0032) -/
+def overflowMsg (off size : Nat) : String := s!"offset ({off}) plus size ({size}) is too big"
+
 /-- one whole step of `validate_element_offset` / `validate_field_offset` on a non-constant element of
-    size `size`: the stored offset and the new running offset (stored offset + size) -/
+    size `size`: the stored offset and the new running offset (stored offset + size), which `offset_t` must be
+    able to hold -/
 def offsetStep (custom : Option Nat) (cur size : Nat) : Except String (Nat × Nat) :=
   match storedOffset custom cur with
   | .error err => .error err
-  | .ok off => .ok (off, off + size)
+  | .ok off => if offsetMax < off + size then .error (overflowMsg off size) else .ok (off, off + size)
 
 mutual
   /-- size and leaves (with absolute offsets from `base`) of one encoding -/
@@ -173,9 +181,11 @@ mutual
           match elemLeaves types fuel (path ++ [e.name]) (base + off) e with
           | .error err => .error err
           | .ok (sz, lv) =>
-            match compLeaves types fuel path base (off + sz) rest with
-            | .error err => .error err
-            | .ok (total, lv') => .ok (total, lv ++ lv')
+            if offsetMax < off + sz then .error (overflowMsg off sz)
+            else
+              match compLeaves types fuel path base (off + sz) rest with
+              | .error err => .error err
+              | .ok (total, lv') => .ok (total, lv ++ lv')
 end
 
 def FUEL : Nat := 64
@@ -209,8 +219,10 @@ def fieldLeaves (types : List Elem) : Nat → List FieldDef → Except String (N
                       else match lookup types f.type with
                         | some enc => elemLeaves types FUEL [f.name] off enc
                         | none => .error s!"field type `{f.type}` doesn't exist")
-      let (total, lv') ← fieldLeaves types (off + sz) rest
-      .ok (total, lv ++ lv')
+      if offsetMax < off + sz then .error (overflowMsg off sz)
+      else do
+        let (total, lv') ← fieldLeaves types (off + sz) rest
+        .ok (total, lv ++ lv')
 
 def findLeaf (lv : List NLeaf) (name : String) : Option NLeaf := lv.find? (fun l => l.path = [name])
 
